@@ -300,8 +300,16 @@ func drawOps(t *core.Tape, spec *world.SchemaSpec, twin *jsonapi.Schema) []op {
 			ds := world.DrawDoc(t, spec, world.DocOptions{MaxPrimary: 1, MaxIncluded: 0})
 			raw := ds.RawURL(nil)
 
-			if t.Bool(1, 5) {
+			switch t.Draw(8) {
+			case 0:
 				raw += "&nosuchparam=1&alsonot=2"
+			case 1:
+				// an unknown type in the path; the name is fresh so that process-wide state keyed by it is cold
+				raw = fmt.Sprintf("/nosuch%d/1", t.Draw(1<<20))
+			case 2:
+				raw += fmt.Sprintf("&fields%%5Bghost%d%%5D=x", t.Draw(1<<20))
+			case 3:
+				raw += fmt.Sprintf("&sort=-nosuch%d,id&include=nope%d", t.Draw(1<<20), t.Draw(1<<20))
 			}
 
 			ops = append(ops, op{"NewURLFromRaw", fmt.Sprintf("NewURLFromRaw(%q)", raw), func(s *jsonapi.Schema) string {
